@@ -24,6 +24,10 @@ CHECKS = {
     text="Real YowInterfaceLayer on top of the assembled encryption + protocol layers. step: one outstanding request of each of 16 kinds (ping, last seen, picture, statuses, privacy, group operations, contact sync, media upload), a reply whose id is an unconstrained z3 string and whose type is result/error, delivered twice: success/error callback exactly once iff id matches, with the original request, replay invokes nothing. history: 2 (thorough 3) outstanding requests of solver-chosen kinds x 3 (4) deliveries to solver-chosen targets (incl. unknown ids) in any order. internal: key upload and key fetch registries of the encryption layers.",
     note="Trusted: engine string model, manager stub, reply bodies of documented shape. Reply types other than result/error and histories beyond the bound are outside.",
     technique="symbolic execution of the request registries in the assembled stack (z3 string reply id, solver-chosen histories); concrete replay of every model"),
+ "C10": dict(cat="model_checking", design="4/C10",
+    text="The real AttributesConverter runs symbolically on attribute objects of all 11 content kinds (text, extended text, image, video, audio, document, sticker, location, contact, sender-key distribution, revoke) whose set fields are unconstrained z3 strings (incl. empty), integers over the protobuf range (incl. 0), reals and opaque byte blobs of symbolic length, with quoted/mentioning context nested to depth 2 (thorough 3); optional-field families all/none/each single (thorough: pairs). protobuf messages are a stub generated from the real DESCRIPTORs; z3 proves every field the sender set comes back equal and that a parsed payload re-serialises to the same modelled fields. Every model is replayed through real protobuf bytes; the stub is compared with the real runtime on each run.",
+    note="Trusted: proto2 stub (differentially validated), z3; protobuf's wire codec is only exercised concretely. Field subsets beyond the families rely on fields being mapped independently.",
+    technique="symbolic execution of the hand-written field mapping with a descriptor-generated protobuf stub (z3 strings/ints/reals); concrete replay through real protobuf"),
  "C12": dict(cat="fault_enumeration", design="4/C12",
     text="The real default stack (all core, encryption and protocol layers + application layer) with recording non-blocking locks on every YowLayer.lock and the noise flush lock. The solver enumerates failure kind (unencodable value, >=16 MiB frame with symbolic length, no transport session, undecodable frame, handler-rejected stanza, raising application callback) x position in a sequence of 3 (thorough 4) operations x follow-up (send / incoming frame / both); after the failure: error reached the caller, no lock held, every later operation completes.",
     note="Trusted: Noise transport stub (transparent), manager stub; a lock found held stands for 'any later thread blocks forever' (OS-thread blocking itself is not executed).",
